@@ -28,11 +28,12 @@ import (
 const shimRoot = "github.com/esimov/gogu/vrtshim/"
 
 var importMap = map[string]string{
-	"sync":                             "sync " + q(shimRoot+"vsync"),
-	"time":                             "time " + q(shimRoot+"vtime"),
-	"runtime":                          "runtime " + q(shimRoot+"vruntime"),
-	"math/rand":                        "rand " + q(shimRoot+"vrand"),
-	"golang.org/x/sync/singleflight":   "singleflight " + q(shimRoot+"singleflight"),
+	"sync":                           "sync " + q(shimRoot+"vsync"),
+	"time":                           "time " + q(shimRoot+"vtime"),
+	"runtime":                        "runtime " + q(shimRoot+"vruntime"),
+	"math/rand":                      "rand " + q(shimRoot+"vrand"),
+	"sync/atomic":                    "atomic " + q(shimRoot+"vatomic"),
+	"golang.org/x/sync/singleflight": "singleflight " + q(shimRoot+"singleflight"),
 }
 
 func q(s string) string { return `"` + s + `"` }
@@ -548,7 +549,7 @@ func main() {
 		}
 	}
 	// virtual packages
-	for _, pkg := range []string{"vrt", "vsync", "vtime", "vruntime", "vrand"} {
+	for _, pkg := range []string{"vrt", "vsync", "vtime", "vruntime", "vrand", "vatomic"} {
 		files, _ := filepath.Glob(filepath.Join(*verif, "vrt", pkg, "*.go"))
 		for _, f := range files {
 			if strings.HasSuffix(f, "_test.go") {
